@@ -13,6 +13,7 @@ import (
 	"pegverif/drive"
 	"pegverif/fake"
 	"pegverif/kit"
+	"pegverif/sqlw"
 )
 
 // C14 Holder staking payouts: snapshot minimum, proportional, capped.
@@ -42,6 +43,7 @@ type c14Scenario struct {
 	snapRates kit.Rates // rates quoted at 576 (nil = R1)
 	graded576 bool
 	zeroEUR   bool // SPR band zeroes pEUR at 576 (>= 2.0.2)
+	retry576  bool // the snapshot block fails once late (sync-height write) and is retried by the daemon
 }
 
 func c14Scenarios(era drive.Era, thorough bool) []c14Scenario {
@@ -70,6 +72,8 @@ func c14Scenarios(era drive.Era, thorough bool) []c14Scenario {
 		out = append(out, c14Scenario{name: "cap/" + x.n, holders: capHolders, snapRates: R1().With("XBT", x.r), graded576: true})
 	}
 	out = append(out, c14Scenario{name: "ungraded-snapshot-block", holders: append([]c14Holder{{key: 20, usd: 10, eur: 5, move: "sendpart"}}, fixed...), graded576: false})
+	out = append(out, c14Scenario{name: "snapshot-block-retried-after-transient-fault/sendall", holders: append([]c14Holder{{key: 20, usd: 1000, eur: 5, move: "sendall"}}, fixed...), graded576: true, retry576: true})
+	out = append(out, c14Scenario{name: "snapshot-block-retried-after-transient-fault/late", holders: append([]c14Holder{{key: 20, usd: 1000, move: "late"}}, fixed...), graded576: true, retry576: true})
 	out = append(out, c14Scenario{name: "tie", holders: []c14Holder{{key: 20, usd: 300, move: "none"}, {key: 21, usd: 300, move: "none"}, {key: 22, usd: 300, move: "none"}}, graded576: true})
 	out = append(out, c14Scenario{name: "tie-above-cap", holders: []c14Holder{{key: 20, xbt: 1000000, move: "none"}, {key: 21, xbt: 1000000, move: "none"}, {key: 22, xbt: 1000000, move: "none"}}, snapRates: R1().With("XBT", 9e7*1e8), graded576: true})
 	if era.V202 == 0 {
@@ -205,6 +209,17 @@ func c14One(c *core.Ctx, r *core.Result, era drive.Era, sc c14Scenario, key stri
 	defer run.Close()
 	states := map[uint32]*LedgerView{}
 	for _, h := range []uint32{431, 574, 575, 576, 577} {
+		if h == 576 && sc.retry576 {
+			d := run.Open(nil)
+			fired := false
+			d.DB.SetHooks(&sqlw.Hooks{Before: func(op *sqlw.Op) error {
+				if !fired && strings.Contains(op.SQL, "pn_sync_version") && op.Kind != "prepare" {
+					fired = true
+					return fmt.Errorf("injected transient storage failure")
+				}
+				return nil
+			}})
+		}
 		if out := run.SyncTo(h); !out.Reached {
 			r.Count("inconclusive-"+outcomeClass(out), 1)
 			r.Outcome("not-applied:" + errClass(out.LastErr+out.DiedMsg))
